@@ -327,7 +327,8 @@ def handle_comments(job):
             ) from err
         except TypeError as err:
             raise messages.IncorrectCommandSyntax(
-                extra_message=str(err), active_options=job.active_options
+                extra_message=str(err), robot=job.bert_e.client.login,
+                active_options=job.active_options
             ) from err
 
     # Handle commands
